@@ -374,9 +374,11 @@ def check(repo: Repo, run: Run) -> None:
     run.ob("K4", MOD, f"TracesParser.{end_m}", "append to every open window of the thread", okl,
            "END does not append the event (unconditionally, once) to every open window of its thread (its own included)",
            line=fn.lineno)
-    pops = [e for e in rec.effects if e.kind == "mut-call" and e.key == "pop"
+    # the window is removed by windows.pop(eventid), or read first and removed by `del windows[eventid]`
+    pops = [e for e in rec.effects if ((e.kind == "mut-call" and e.key == "pop") or e.kind == "del-sub")
             and (winlike(e.path, st, tid) or winlike(e.base, st, tid))]
-    okp = len(pops) == 1 and pops[0].args == (eid,) and not pops[0].loops
+    okp = len(pops) == 1 and not pops[0].loops and \
+        (pops[0].args == (eid,) if pops[0].kind == "mut-call" else pops[0].key == eid)
     run.ob("K4", MOD, f"TracesParser.{end_m}", "window popped by event.eventid", okp,
            "" if okp else "END does not pop exactly state[tid][event.eventid]: the window stays open (later ENDs re-emit it) or "
                           "another window is closed", line=fn.lineno)
@@ -384,7 +386,8 @@ def check(repo: Repo, run: Run) -> None:
         run.ob("K4", MOD, f"TracesParser.{end_m}", "append precedes pop", loops[0][0].body_seq[1] < pops[0].seq,
                "the window is popped before the END record is appended: the trace does not end with its END", line=fn.lineno)
     if okp:
-        popped = T("call", (T("attr", (pops[0].base, "pop")), (eid,), ()))
+        popped = T("call", (T("attr", (pops[0].base, "pop")), (eid,), ())) if pops[0].kind == "mut-call" else \
+            T("sub", (pops[0].base, eid))
         pel = M["parse_event_list"]
         want = interp.run(tp.module, pel, {"self": SELF, pel.args.args[1].arg: popped}, self_cls=tp).return_term()
         live = [r for r in rec.returns if r.kind == "return" and r.value != const(None)]
@@ -434,6 +437,8 @@ def check(repo: Repo, run: Run) -> None:
             for dflt in ((), (const(None),), (const(""),)):
                 alt_name = T("call", (T("attr", (tc, "get")), (eid,) + dflt, ()))
                 conds.append(T("cmp", ("in", alt_name, trace_reg)))
+                # the registry's keys are strings: `name is not None and name in registry` says no more than `name in registry`
+                conds.append(T("bool", ("and", (T("cmp", ("is not", alt_name, const(None))), T("cmp", ("in", alt_name, trace_reg))))))
             ok = any(normal.bool_equiv(chosen, c) is True for c in conds)
     if not ok and direct_dispatch is not None:
         # no table: the alternatives are direct calls of the action methods; for every qualifier value the action of that
@@ -506,6 +511,48 @@ def check(repo: Repo, run: Run) -> None:
            "handlers[name](self, events)`", line=fn.lineno)
     run.ob("K9", MOD, "TracesParser.parse_event_list", "no state change",
            not [e for e in rec.effects if e.func.endswith(".parse_event_list")], "parse_event_list mutates state", nontrivial=False)
+
+    # ---- K10 the window tables belong to the three actions: no decoder (they all receive the parser) and no other method
+    # of the parser writes into them, so what K3-K5 establish cannot be undone from outside
+    from .. import decoders
+    tables = ("on_going_events", "on_going_traces")
+
+    def table_writes(rec_, root):
+        out = []
+        for e in rec_.effects:
+            pth = e.path if e.path is not None else e.base
+            if e.kind == "attr-store" and pth == root and e.key in tables:
+                out.append((e, e.key))
+                continue
+            cur = pth
+            while cur is not None and cur.op in ("attr", "sub", "mut", "call"):
+                if cur.op == "attr" and cur.a[0] == root and cur.a[1] in tables:
+                    out.append((e, cur.a[1]))
+                    break
+                cur = cur.a[0] if cur.op != "call" else (cur.a[0].a[0] if cur.a[0].op == "attr" else None)
+        return out
+    D = decoders.Decoders(repo)
+    D.interp = interp
+    n_dec = 0
+    for ent in D.entries():
+        d = D.decode(ent)
+        n_dec += 1
+        ws = table_writes(d.rec, decoders.PARSER)
+        run.ob("K10", ent.module.name, ent.func_name, f"{ent.key}: leaves the window tables alone", not ws,
+               "" if not ws else
+               f"the decoder of {ent.key} performs {ws[0][0].kind} {ws[0][0].key} on parser.{ws[0][1]} (line {ws[0][0].lineno}): "
+               f"windows opened by START records are changed behind the pairing actions' back, so a later END finds no window "
+               f"or a different one", nontrivial=bool(ws), line=ent.func.lineno,
+               witness="START of a call on thread T, then this record, then the END of the call on thread T")
+    run.floor("K10", "decoders scanned", n_dec, 400)
+    for mname, mnode in M.items():
+        if mname in (start_m, end_m, all_m, "__init__"):
+            continue
+        mrec = interp.run(tp.module, mnode, self_cls=tp)
+        ws = [w for w in table_writes(mrec, SELF) if w[0].func.endswith("." + mname)]
+        run.ob("K10", MOD, f"TracesParser.{mname}", "leaves the window tables alone", not ws,
+               "" if not ws else f"TracesParser.{mname} performs {ws[0][0].kind} {ws[0][0].key} on self.{ws[0][1]} itself",
+               nontrivial=bool(ws), line=mnode.lineno)
 
 
 def _pc_at_loop(rec, lr):
